@@ -45,7 +45,9 @@ def sample_cfgs(cases, rng, n):
             continue
         if c["stuck"].startswith("pool:"):
             continue          # extents incompatible with the pooling are outside the property's domain (the code does not reject them)
-        key = (cf["cls"], cf["equiv"], c["admissible"], c["stuck"] != "")
+        # U-Nets: every (down-samples, convs per level) wiring is its own stratum (channel arithmetic and skip order differ)
+        wiring = (cf["ndown"], cf["nconv"]) if cf["cls"] == "UNet" else (cf["nconv"] if cf["cls"] == "ResNet" else 0)
+        key = (cf["cls"], cf["equiv"], c["admissible"], c["stuck"] != "", wiring)
         strata.setdefault(key, []).append(c)
     out = []
     keys = sorted(strata, key=str)
@@ -112,7 +114,7 @@ def main(tier):
         raise RuntimeError("vacuity: constructor space has no admissible equivariant / no failing configuration")
     rng = random.Random(core.SEED + 20)
     cases.sort(key=lambda c: core.canon(c["cfg"]))
-    picks = sample_cfgs(cases, rng, 28 if tier == "quick" else 320)
+    picks = sample_cfgs(cases, rng, 40 if tier == "quick" else 320)
     traces = core.pmap(record_case, [(i + 1, c, core.SEED + i) for i, c in enumerate(picks)], procs=14, crash_value=None)
     traces = [t for t in traces if t is not None]
     verdicts = tracelib.validate(chk, "trace/Trace_Architectures.tla", [{"tid": t["tid"], "cfg": t["cfg"], "events": t["events"]} for t in traces],
